@@ -672,51 +672,158 @@ def check_dispatch(rep, prog):
 
 
 # ------------------------------------------------------------------------------------------------ C08.h
+# An update site is a library function that builds a new packet object, or changes the body of one it was given, and must leave it
+# with a header length that matches the body.  The object is identified by what it IS on the interpreter path - the receiver (`self`),
+# a parameter, the object a constructor call of a given class returned, the object made by the subpacket-module factory - never by
+# the local name it happens to be bound to.  On every path that changes the object, an update_hlen() call on it must follow the last
+# change (attribute stores below the object, calls of methods that modify their receiver, setattr).
 UPDATE_SITES = [
-    # (module, class, method, object text, scenario axioms)
-    ('pgpy.pgp', 'PGPUID', 'new', 'uid._uid', {}),
-    ('pgpy.pgp', 'PGPMessage', 'new', 'lit', {}),
-    ('pgpy.pgp', 'PGPSignature', 'make_onepass', 'onepass', {}),
-    ('pgpy.pgp', 'PGPKey', '_sign', 'sig._signature', {}),
-    ('pgpy.pgp', 'PGPKey', 'add_subkey', 'key._key', {}),
-    ('pgpy.pgp', 'PGPMessage', '__bytearray__', 'comp', {}),
-    ('pgpy.packet.packets', 'PKESessionKeyV3', 'encrypt_sk', 'self', {}),
-    ('pgpy.packet.packets', 'SKESessionKeyV4', 'encrypt_sk', 'self', {}),
-    ('pgpy.packet.packets', 'IntegrityProtectedSKEDataV1', 'encrypt', 'self', {}),
-    ('pgpy.packet.packets', 'IntegrityProtectedSKEDataV1', 'encrypt', 'mdc', {}),
-    ('pgpy.packet.packets', 'PrivKeyV4', 'new', 'pk', {}),
-    ('pgpy.packet.packets', 'PrivKeyV4', 'pubkey', 'pk', {}),
-    ('pgpy.packet.packets', 'PrivKeyV4', 'protect', 'self', {}),
-    ('pgpy.packet.fields', 'SubPackets', 'addnew', 'nsp', {}),
+    # (module, class, method, selector, join undecided branches)
+    ('pgpy.pgp', 'PGPUID', 'new', ('new', 'UserAttribute'), False),
+    ('pgpy.pgp', 'PGPUID', 'new', ('new', 'UserID'), False),
+    ('pgpy.pgp', 'PGPMessage', 'new', ('new', 'LiteralData'), False),
+    ('pgpy.pgp', 'PGPSignature', 'make_onepass', ('new', 'OnePassSignatureV3'), False),
+    ('pgpy.pgp', 'PGPKey', '_sign', ('param', 'sig', '._signature'), True),
+    ('pgpy.pgp', 'PGPKey', 'add_subkey', ('new', 'PrivSubKeyV4'), False),
+    ('pgpy.pgp', 'PGPMessage', '__bytearray__', ('new', 'CompressedData'), False),
+    ('pgpy.packet.packets', 'PKESessionKeyV3', 'encrypt_sk', ('self',), False),
+    ('pgpy.packet.packets', 'SKESessionKeyV4', 'encrypt_sk', ('self',), False),
+    ('pgpy.packet.packets', 'IntegrityProtectedSKEDataV1', 'encrypt', ('self',), False),
+    ('pgpy.packet.packets', 'IntegrityProtectedSKEDataV1', 'encrypt', ('new', 'MDC'), False),
+    ('pgpy.packet.packets', 'PrivKeyV4', 'new', ('new', 'PrivKeyV4'), False),
+    ('pgpy.packet.packets', 'PrivKeyV4', 'pubkey', ('new', 'PubKeyV4'), False),
+    ('pgpy.packet.packets', 'PrivKeyV4', 'pubkey', ('new', 'PubSubKeyV4'), False),
+    ('pgpy.packet.packets', 'PrivKeyV4', 'protect', ('self',), False),
+    ('pgpy.packet.fields', 'SubPackets', 'addnew', ('factory', '_spmodule'), False),
 ]
+
+BUILTIN_MUTATORS = {'append', 'extend', 'insert', 'update', 'add', 'remove', 'pop', 'clear', 'setdefault', 'sort', 'reverse', 'popitem', 'discard',
+                    'appendleft', 'extendleft'}
+
+
+def _root_name(n):
+    while isinstance(n, (ast.Attribute, ast.Subscript)):
+        n = n.value
+    return n.id if isinstance(n, ast.Name) else None
+
+
+def mutating_methods(prog):
+    """Names of methods (of the packet layer) that modify their receiver: a definition stores to / deletes / setattr()s an attribute or
+    item of its first parameter, calls a container mutator on one of its attributes, or calls another such method on it."""
+    cached = prog.__dict__.get('_c08_mutators')
+    if cached is not None:
+        return cached
+    defs = {}
+    for c in prog.all_classes():
+        if not c.module.name.startswith('pgpy.packet'):
+            continue
+        for name, fi in c.methods.items():
+            defs.setdefault(name, []).append(fi)
+    muts = set()
+
+    def direct(fi):
+        if not fi.params:
+            return False
+        me = fi.params[0]
+        for n in ast.walk(fi.node):
+            if isinstance(n, (ast.Attribute, ast.Subscript)) and isinstance(n.ctx, (ast.Store, ast.Del)) and _root_name(n) == me:
+                return True
+            if isinstance(n, ast.Call):
+                if dotted(n.func) == 'setattr' and n.args and _root_name(n.args[0]) == me:
+                    return True
+                if isinstance(n.func, ast.Attribute) and n.func.attr in BUILTIN_MUTATORS and isinstance(n.func.value, (ast.Attribute, ast.Subscript)) and \
+                        _root_name(n.func.value) == me:
+                    return True
+        return False
+    for name, fis in defs.items():
+        if any(direct(fi) for fi in fis):
+            muts.add(name)
+    changed = True
+    while changed:
+        changed = False
+        for name, fis in defs.items():
+            if name in muts:
+                continue
+            for fi in fis:
+                me = fi.params[0] if fi.params else None
+                if any(isinstance(n, ast.Call) and isinstance(n.func, ast.Attribute) and n.func.attr in muts and n.func.attr != name and
+                       _root_name(n.func.value) == me for n in ast.walk(fi.node)):
+                    muts.add(name)
+                    changed = True
+                    break
+    muts.discard('update_hlen')
+    prog.__dict__['_c08_mutators'] = muts
+    return muts
+
+
+def _site_roots(f, s, sel):
+    """Texts under which the selected object appears in the events of path `s`."""
+    if sel[0] == 'self':
+        return [f.params[0]]
+    if sel[0] == 'param':
+        if sel[1] not in f.params:
+            raise AnalysisError('%s has no parameter %s' % (f.qualname, sel[1]))
+        return [sel[1] + sel[2]]
+    roots, last = [], None
+    for e in s.events:
+        if e[0] == 'call':
+            ft = e[1]
+            if sel[0] == 'new' and ft == sel[1]:
+                last = _calltext(ft, e[2], e[3])
+                roots.append(last)
+                continue
+            if sel[0] == 'factory' and ft.startswith('getattr(%s.%s' % (f.params[0], sel[1])):
+                roots.append(_calltext(ft, e[2], e[3]))
+        elif e[0] == 'assign' and last is not None and e[2] == e[1]:
+            roots.append(e[1])            # the constructed object is rendered by the local it was bound to first
+        last = None
+    return roots
+
+
+def _site_events(s, root, muts, direct=True):
+    """(indices of body changes, indices of update_hlen calls) of the object `root` in the ordered event log."""
+    ch, up = [], []
+    for i, e in enumerate(s.events):
+        if e[0] == 'store' and (e[1].startswith(root + '.') or e[1].startswith(root + '[')):
+            ch.append((i, e[1]))
+        elif e[0] == 'call':
+            ft, args = e[1], e[2]
+            if ft == 'setattr' and args and (args[0] == root or args[0].startswith(root + '.')):
+                ch.append((i, 'setattr(%s, ...)' % args[0]))
+            elif ft == root + '.update_hlen':
+                up.append(i)
+            elif ft.startswith(root + '.'):
+                meth = ft.split('.')[-1]
+                recv = ft[:-(len(meth) + 1)]
+                if (recv != root or direct) and (meth in muts or meth in BUILTIN_MUTATORS):
+                    ch.append((i, ft + '()'))
+    return ch, up
 
 
 def check_update_hlen(rep, prog):
-    for mod, cls, meth, obj, ax in UPDATE_SITES:
+    muts = mutating_methods(prog)
+    for mod, cls, meth, sel, join in UPDATE_SITES:
         f = prog.method(mod, cls, meth)
         rep.saw(fn=f)
-        # syntactic: the last statement that stores to / mutates obj must be followed (in program order on the same block level
-        # or later) by obj.update_hlen()
-        stores, updates = [], []
-        for n in ast.walk(f.node):
-            if isinstance(n, (ast.Assign, ast.AugAssign)):
-                for t in (n.targets if isinstance(n, ast.Assign) else [n.target]):
-                    if isinstance(t, ast.Attribute) and (ast.unparse(t.value) == obj or ast.unparse(t.value).startswith(obj + '.')):
-                        stores.append(n.lineno)
-            if isinstance(n, ast.Call) and isinstance(n.func, ast.Attribute):
-                base = ast.unparse(n.func.value)
-                if n.func.attr == 'update_hlen' and base == obj:
-                    updates.append(n.lineno)
-                elif base.startswith(obj + '.') or base == obj:
-                    if n.func.attr in ('addnew', 'from_signer', 'encrypt_keyblob', '_generate', 'encrypt', 'append', 'setattr') and n.func.attr != 'update_hlen':
-                        if not (base == obj and n.func.attr == 'encrypt' and obj == 'self'):
-                            stores.append(n.lineno)
-                if dotted(n.func) == 'setattr' and n.args and (ast.unparse(n.args[0]) == obj or ast.unparse(n.args[0]).startswith(obj + '.')):
-                    stores.append(n.lineno)
-        ok = bool(updates) and (not stores or max(updates) > max(stores))
-        rep.check(ok, 'C08.h', '%s.%s' % (cls, meth), '%s: last body change at line %s, update_hlen at %s' % (obj, max(stores) if stores else None, updates),
+        outs = Interp(prog, Scenario(inline=noinline, join_unknown=join)).run(f)
+        seen, bad = 0, []
+        for s in outs:
+            if s.raised is not None:
+                continue
+            for root in _site_roots(f, s, sel):
+                ch, up = _site_events(s, root, muts, direct=sel[0] != 'self')
+                if not ch and not up:
+                    continue
+                seen += 1
+                if ch and not (up and max(up) > max(i for i, _ in ch)):
+                    last = max(ch)
+                    bad.append('%s after %s' % ('no update_hlen()' if not up or max(up) < last[0] else 'update_hlen() only', last[1].replace(root, '<obj>', 1)))
+        what = {'self': 'the receiver', 'param': 'parameter %s' % ''.join(sel[1:]), 'new': 'the new %s' % sel[-1], 'factory': 'the new subpacket'}[sel[0]]
+        if not seen:
+            raise AnalysisError('update site %s.%s: %s is not built or changed on any path' % (cls, meth, what))
+        rep.check(not bad, 'C08.h', '%s.%s' % (cls, meth), '%s: %s' % (what, bad[0] if bad else 'update_hlen() follows the last body change on %d path(s)' % seen),
                   'the packet body is built or changed and the header length is not recomputed afterwards: header length != body length', where=f.where,
-                  expected='%s.update_hlen() after the last change' % obj, found='changes at %s, update_hlen at %s' % (sorted(set(stores))[-3:], updates))
+                  expected='update_hlen() on %s after the last change, on every path' % what, found=sorted(set(bad))[:3], scenario=what)
 
 
 def _hlen_formula(rep, prog, f, const, label, why):
